@@ -1,14 +1,17 @@
 """C19 — discovered topology is the physical one; flooding is pruned to a tree (DESIGN §5 C19).
 
 Case kinds
-  calc  : an adjacency (list of directed links in dict insertion order) -> real `_calc_spanning_tree()` vs model `calcTreeL` (culling loop as written)
+  calc  : an adjacency (list of directed links in dict insertion order) -> real `_calc_spanning_tree()`: raises iff the model `calcTreeL` (culling loop
+          as written) raises; the tree it returns is judged by the executable specification `Spec.validForest` in the driver (WHICH forest is left open)
   hist  : a physical topology + a history of up / down / probe / tick / sweep ops under the virtual clock, through the real
-          `Discovery`, `LLDPSender` and `spanning_tree` handlers with stub connections that record what they are sent
+          `Discovery`, `LLDPSender` and `spanning_tree` handlers with stub connections that record what they are sent; model `stepOf`: after
+          every op the tree the NO_FLOOD bits on the switches amount to is judged by `Spec.validForest` and handed to the model of the handlers,
+          LinkEvents / port_mods per step / adjacency compared exactly
   codec : (dpid, port, hw) -> real `_create_discovery_packet(...).pack()` vs model `probeFrame`, and the real PacketIn handler's
           recovered originator vs (dpid, port)
   frame : a (foreign / damaged) LLDP frame -> what the real PacketIn handler does with it vs model `recover`
   upd   : one real `_update_tree()` from an arbitrary `_prev`, optionally with the k-th `con.send` raising -> port_mods IN ORDER and
-          `_prev` afterwards vs model `updateTreeF`
+          `_prev` afterwards vs model `updateTreeFOf` at the tree the implementation's port_mods amount to (judged by `Spec.validForest`)
   live  : a physical topology + a history of up / down / run(dt) / cut / mend / mute / pstate ops in which NOTHING is called by hand:
           the timers the components create (the recurring expiry Timer of Discovery.__init__, LLDPSender's send cycle, spanning_tree's
           delayed port checks) are the real recoco Timers, run by the real Scheduler.cycle() on a virtual hub (clock + wake list); the
@@ -192,6 +195,7 @@ class C19(Check):
     lean_targets = ["drv_c19"]
     driver = "drv_c19"
     theorems = ["Pox.C19.cull_loop_is_closed_form", "Pox.C19.calc_raises_iff_selfloop", "Pox.C19.tree_is_forest", "Pox.C19.tree_edge_is_bridge",
+                "Pox.C19.model_tree_valid", "Pox.C19.valid_forest_sound",
                 "Pox.C19.calc_terminates", "Pox.C19.link_events", "Pox.C19.event_iff_change", "Pox.C19.in_adjacency_iff_last_added",
                 "Pox.C19.adjacency_exact", "Pox.C19.adjacency_ends_connected", "Pox.C19.down_withdraws", "Pox.C19.sweep_bounds_age",
                 "Pox.C19.timer_never_stops", "Pox.C19.timer_withdraws", "Pox.C19.timed_is_history", "Pox.C19.timed_link_events",
@@ -208,6 +212,12 @@ class C19(Check):
                ("pox/openflow/spanning_tree.py", "_handle_LinkEvent"), ("pox/openflow/spanning_tree.py", "_update_tree"),
                ("pox/lib/packet/lldp.py", "lldp.next_tlv"), ("pox/lib/packet/lldp.py", "lldp.parse")]
     trusted_base = ["models Model/STree.lean and Model/Discovery.lean hand-written from spanning_tree.py / discovery.py / lldp.py; tied by this correspondence run",
+                    "WHICH spanning forest is used (and which of several parallel cables) is left open by the property: the tree the implementation chose -- the dict "
+                    "_calc_spanning_tree returned; in histories and single updates the tree its NO_FLOOD bits amount to (Spec.floodTree) -- is judged in Lean by the executable "
+                    "specification Spec.validForest (edges are links known in both directions with the two ports of ONE cable, acyclic, joins what the bidirectional links join; "
+                    "theorems model_tree_valid: the modelled code's own tree always passes, valid_forest_sound: what passing means) and then handed to the model of the handlers "
+                    "(updateTreeOf / stepOf / tstepOf; step_isOf: the modelled code is the instance at its own tree), so that the port_mods in order, _prev, the LinkEvents and the "
+                    "adjacency are still compared exactly; the Python glue only flattens the dict / lists the port_mods",
                     "the culling loop of _calc_spanning_tree is modelled as written (dict-of-dicts as one insertion-ordered association list) and proved equal to the closed form "
                     "the other proofs use (cull_loop_is_closed_form); the iteration order of the `switches` set is an oracle argument fed from the harness",
                     "the expiry timer is modelled as the contract of recoco.Timer.run (sleep until due, next = wake time + interval, a self-stoppable timer whose callback "
@@ -332,6 +342,9 @@ class C19(Check):
         self.D.addListenerByName("LinkEvent", rec, priority=1 << 40)
         self.real_conns = core.openflow._connections
         self.variant = self._probe_variant()
+        # the handlers as they are (or without C19-2): the tree is a parameter of the model, the implementation's choice is judged by
+        # Spec.validForest; the variants of the code before D20 / C19-1 recompute on a stale adjacency and are compared as before
+        self.spec = bool(self.variant["popFirst"] and not self.variant["skip"])
 
     def _probe_variant(self):
         """which of the modelled variants of the handlers the code under test behaves like (three behaviour probes through the real
@@ -1066,7 +1079,7 @@ class C19(Check):
                 core.openflow.raiseEventNoErrors(self.ofmod.PortStatus, con, ps)
             mods = []
             for con in list(cons.values()): mods += drain(con)
-            st = {"k": k, "events": copy.deepcopy(self._events), "mods": sorted(mods),
+            st = {"k": k, "events": copy.deepcopy(self._events), "mods": sorted(mods), "raw": list(mods),
                   "order": (self._orders[0] if self._orders else [])}
             if self._events:
                 st["snap"] = {"adj": sorted(list(l) for l in D.adjacency), "bits": sorted([d, p, b] for (d, p), b in bits.items()),
@@ -1138,7 +1151,7 @@ class C19(Check):
             mods = []
             for con in list(cons.values()): mods += drain(con)
             if self._events or mods or force:
-                e = {"k": kind, "t": ms(), "events": copy.deepcopy(self._events), "mods": sorted(mods),
+                e = {"k": kind, "t": ms(), "events": copy.deepcopy(self._events), "mods": sorted(mods), "raw": list(mods),
                      "order": (self._orders[0] if self._orders else [])}
                 if extra: e.update(extra)
                 if self._events:
@@ -1272,14 +1285,19 @@ class C19(Check):
             return None                                                    # oracle only (probe_roundtrip is the theorem; `codec` compares the bytes)
         if k == "calc":
             if "skipped" in obs: return None
-            return {"op": "calc", "adj": case["links"], "order": obs["order"]}
+            return self._calc_req(case["links"], obs)
         if k == "upd":
             if "skipped" in obs: return None
-            return {"op": "update", "adj": case["links"], "order": obs["order"], "conns": [[int(d), ps] for d, ps in case["conns"].items()],
-                    "prev": case["prev"], "fail": case["fail"], "all": self.variant["visitAll"], "again": bool(case.get("again"))}
+            req = {"op": "update", "adj": case["links"], "order": obs["order"], "conns": [[int(d), ps] for d, ps in case["conns"].items()],
+                   "prev": case["prev"], "fail": case["fail"], "all": self.variant["visitAll"], "again": bool(case.get("again"))}
+            if self.spec and "exc" not in obs:
+                # the port_mods the implementation sent: the driver reads the tree they amount to off them, judges it, and answers what
+                # _update_tree does with THAT tree
+                req["impl"] = {"mods": obs["mods"], "mods2": obs.get("mods2", [])}
+            return req
         if k == "calcseq":
             if "skipped" in obs: return None
-            return {"op": "batch", "reqs": [{"op": "calc", "adj": links, "order": it["order"]} for links, it in zip(case["seq"], obs["items"])]}
+            return {"op": "batch", "reqs": [self._calc_req(links, it) for links, it in zip(case["seq"], obs["items"])]}
         if k == "codec":
             return {"op": "batch", "reqs": [{"op": "pack", "dpid": it["dpid"], "port": it["port"], "hw": it["hw"], "ttl": 120} for it in obs["items"]]}
         if k == "hist":
@@ -1293,10 +1311,25 @@ class C19(Check):
                 elif kk == "sweep": ops.append({"k": "sweep", "order": st["order"]})
                 elif kk == "probe": ops.append({"k": "probe", "l": op["from"] + op["to"], "order": st["order"]})
                 elif kk == "pstate": ops.append({"k": "tick", "dt": 0})     # carrier is no input of discovery's adjacency or of _update_tree
-            return {"op": "history", "variant": self.variant, "ops": ops}
+            if self.spec:
+                j = 0
+                for op, st in zip(self._norm_ops(case), obs["steps"]):
+                    ops[j]["mods"] = st.get("raw", st["mods"]); j += 1
+            return {"op": "history", "variant": self.variant, "ops": ops, "impl": self.spec}
         if k == "live":
-            return {"op": "timed", "variant": self.variant, "ops": self._live_model_ops(case, obs)[0]}
+            ops, views = self._live_model_ops(case, obs)
+            if self.spec:
+                ops = [dict(op, mods=v.get("raw", v["mods"])) for op, v in zip(ops, views)]
+            return {"op": "timed", "variant": self.variant, "ops": ops, "impl": self.spec}
         return None
+
+    def _calc_req(self, links, obs):
+        """the adjacency, and -- when the implementation returned a tree -- that tree (the dict flattened to [switch, neighbour, port]
+        entries): the driver answers whether `_calc_spanning_tree` as written returns or raises, and which clause of the
+        specification the implementation's tree fails, if any"""
+        req = {"op": "calc", "adj": links, "order": obs["order"]}
+        if "tree" in obs: req["tree"] = obs["tree"]
+        return req
 
     def _live_model_ops(self, case, obs):
         """the timed history the run amounts to, for the model: things that happened (up / down / a probe that arrived) and time
@@ -1318,7 +1351,7 @@ class C19(Check):
                 cur[0] = end
         for e in obs["trace"]:
             k = e["k"]
-            v = {"events": e["events"], "mods": e["mods"]}
+            v = {"events": e["events"], "mods": e["mods"], "raw": e.get("raw", e["mods"])}
             if k == "wake": advance(e["t"], v, e["order"]); continue
             advance(e["t"])
             if k == "up": ops.append({"k": "up", "dpid": e["dpid"], "ports": sw[e["dpid"]]}); views.append(v)
@@ -1332,12 +1365,14 @@ class C19(Check):
         k = case["kind"]
         if isinstance(obs, dict) and "skipped" in obs: return obs
         if k == "calc":
-            return {"exc": obs["exc"]} if "exc" in obs else {"tree": obs["tree"], "keys": obs["keys"]}
+            # which forest (and which of parallel cables) is left open: the tree must be one the specification allows
+            return {"exc": obs["exc"]} if "exc" in obs else {"valid": "ok", "model": "ok"}
         if k == "codec":
             return [it["frame"] for it in obs["items"]]
         if k == "upd":
             if "exc" in obs: return {"exc": obs["exc"]}
             v = {"mods": obs["mods"]}
+            if self.spec: v["tree"] = "ok"
             if "mods2" in obs: v["mods2"] = obs["mods2"]
             if obs["prev"] is not None:
                 v["prev"] = obs["prev"]
@@ -1346,23 +1381,29 @@ class C19(Check):
         if k == "calcseq":
             return [self.impl_view({"kind": "calc"}, it) for it in obs["items"]]
         if k == "hist":
-            return {"steps": [{"events": s["events"], "mods": s["mods"]} for s in obs["steps"]], "adjacency": obs["adjacency"]}
+            return {"steps": [self._step_view(s) for s in obs["steps"]], "adjacency": obs["adjacency"]}
         if k == "live":
-            return {"steps": self._live_model_ops(case, obs)[1], "adjacency": obs["adjacency"]}
+            return {"steps": [self._step_view(s) for s in self._live_model_ops(case, obs)[1]], "adjacency": obs["adjacency"]}
         return obs
+
+    def _step_view(self, s):
+        v = {"events": s["events"], "mods": s["mods"]}
+        if self.spec: v["tree"] = "ok"           # the tree the bits amount to after the step: accepted by the specification
+        return v
 
     def model_obs(self, case, resp):
         if "error" in resp: return resp
         k = case["kind"]
         if k == "calc":
             if "exc" in resp: return {"exc": resp["exc"]}
-            return {"tree": sorted([[v, w, pv] for v, pv, w, pw in resp["tree"]] + [[w, v, pw] for v, pv, w, pw in resp["tree"]]),
-                    "keys": resp["keys"]}
+            if "valid" not in resp: return {"model-returns": "a tree"}          # (the implementation raised, the modelled code does not)
+            return {"valid": resp["valid"], "model": resp["model"]}
         if k == "codec":
             return [r.get("frame", r) for r in resp["resps"]]
         if k == "upd":
             if "exc" in resp: return {"exc": resp["exc"]}
             v = {"mods": resp["mods"]}
+            if self.spec: v["tree"] = resp.get("tree")
             if "mods2" in resp: v["mods2"] = resp["mods2"]
             if common.canon(case) not in getattr(self, "_noprev", ()):
                 v["prev"] = sorted(resp["prev"])
@@ -1371,7 +1412,8 @@ class C19(Check):
         if k == "calcseq":
             return [self.model_obs({"kind": "calc"}, r) for r in resp["resps"]]
         if k in ("hist", "live"):
-            return {"steps": [{"events": o["events"], "mods": sorted(o["mods"])} for o in resp["outs"]], "adjacency": resp["adjacency"]}
+            return {"steps": [dict({"events": o["events"], "mods": sorted(o["mods"])}, **({"tree": o.get("tree")} if self.spec else {})) for o in resp["outs"]],
+                    "adjacency": resp["adjacency"]}
         return resp
 
     # ------------------------------------------------------------------ the property, on the implementation's observables
